@@ -415,10 +415,22 @@ def adversarial_cases():
         ("ku-empty", "tls13", "both", 22, b"\x18\x00\x00\x00", None),
         ("ku-two-bytes", "tls13", "both", 22, b"\x18\x00\x00\x02\x00\x00",
          None),
-        ("ku-split-across-records", "tls13", "both", 22, ku0, 2),
+        # (a KeyUpdate split over several records that ends its last record
+        # is legal, RFC 8446 5.1: it used to be listed here and "passed"
+        # because the data written after it no longer decrypted)
         ("ku-plus-ku-in-one-record", "tls13", "both", 22, ku0 + ku0, None),
         ("ku-plus-nst-in-one-record", "tls13", "toC", 22, ku0 + nst, None),
         ("nst-plus-ku-in-one-record", "tls13", "toC", 22, nst + ku1, None),
+        # a KeyUpdate that does not end its record, followed by the *start*
+        # of another message only (nothing complete is left in the buffer)
+        ("ku-plus-ku-header-in-one-record", "tls13", "both", 22,
+         ku0 + ku0[:3], None),
+        ("ku-plus-one-octet-in-one-record", "tls13", "both", 22,
+         ku0 + b"\x18", None),
+        ("ku-plus-ku-less-one-octet-in-one-record", "tls13", "both", 22,
+         ku0 + ku0[:4], None),
+        ("ku-plus-partial-nst-in-one-record", "tls13", "toC", 22,
+         ku0 + nst[:9], None),
         ("ku-on-tls12", "tls12", "both", 22, ku0, None),
         ("cr-to-client-without-pha", "tls13-nopha", "toC", 22,
          b"\x0d\x00\x00\x0b\x01c\x00\x08\x00\x0d\x00\x04\x00\x02\x08\x04",
@@ -502,25 +514,43 @@ def adversarial_case(item):
             W.run_gen(pair.world, sender, snd._sendMsg(
                 RawMsg(ctype, body), update_hashes=False))
         snd.recordSize = 2 ** 14
-        pair.write(sender, b"after")
         got = b""
         result = None
         vic = pair.ep(victim)
         secrets_before = None
-        for _ in range(8):
+        # the bad message has to be refused on its own account: the data
+        # that follows it is written only once the victim has read all there
+        # is (a victim that, say, rolled its key would refuse the *later*
+        # record with bad_record_mac, which proves nothing)
+        for phase in ("alone", "followed"):
+            if phase == "followed":
+                if result != ("ok",):
+                    break
+                result = None
+                pair.write(sender, b"after")
+            for _ in range(8):
+                o = pair.read(victim, None, 0)
+                if o.status == "ok":
+                    got += bytes(o.value or b"")
+                    pipe = pair.world.s2c if victim == "C" else \
+                        pair.world.c2s
+                    if not pipe.buf and not vic.sock._read_buffer:
+                        result = ("ok",)
+                        break
+                elif o.status == "exc":
+                    result = ("exc",) + W.exc_sig(o.exc)
+                    if phase == "followed":
+                        result = ("late",) + result
+                    break
+                else:
+                    result = (o.status,)
+                    break
+        if result and result[0] == "exc":
+            # refused: whatever is written afterwards must not come out
+            pair.write(sender, b"after")
             o = pair.read(victim, None, 0)
             if o.status == "ok":
                 got += bytes(o.value or b"")
-                pipe = pair.world.s2c if victim == "C" else pair.world.c2s
-                if not pipe.buf and not vic.sock._read_buffer:
-                    result = ("ok",)
-                    break
-            elif o.status == "exc":
-                result = ("exc",) + W.exc_sig(o.exc)
-                break
-            else:
-                result = (o.status,)
-                break
         res["n"] += 1
         res["sigs"].add((sender, result))
         ok_alert = result and result[0] == "exc" and \
@@ -551,7 +581,7 @@ def run(res, tier, seed):
         "and TLS 1.2 / 1.0 connections (heartbeat, tickets); every reached "
         "state is drained on a copy and checked (FIFO both directions, "
         "secret agreement, probe exchange, heartbeat echo, client chain); "
-        "23 adversarial control messages sealed with the live keys")
+        "26 adversarial control messages sealed with the live keys")
     depth = 3 if tier == "quick" else 4
     cfgs = configs(tier)
     items = []
